@@ -1,10 +1,13 @@
 package smobserver
 
 import (
+	"bytes"
 	"context"
+	"io"
 	"math/big"
 
 	"github.com/ethereum/go-ethereum/common"
+	"github.com/ethereum/go-ethereum/crypto/ecies"
 	"github.com/jackc/pgconn"
 	"github.com/jackc/pgx/v4"
 
@@ -394,4 +397,90 @@ func H_C20_finalize_queues_key() {
 	}
 	vfAssert(len(vfPh.results) == 1 && vfPh.results[0] == int64(eon), "result-recorded-for-the-eon")
 	vfAssert(len(vfPh.scheduled) == 1, "result-reported-to-shuttermint-once")
+}
+
+
+// ---- sending side of the evaluations (BeforeSaveHook) ----
+
+var vfSend struct {
+	rows    []database.PolyEvalsWithEncryptionKeysRow
+	keyTags []uint64 // tag of the encryption key stored for row i's receiver
+	deleted []database.DeletePolyEvalParams
+}
+
+//verif:stub (*github.com/shutter-network/rolling-shutter/rolling-shutter/keyper/database.Queries).PolyEvalsWithEncryptionKeys sql=polyEvalsWithEncryptionKeys
+func vfStubEvalRows(q *database.Queries, ctx context.Context) ([]database.PolyEvalsWithEncryptionKeysRow, error) {
+	return vfSend.rows, nil
+}
+
+//verif:stub github.com/shutter-network/rolling-shutter/rolling-shutter/shdb.DecodeEciesPublicKey
+func vfStubDecodeEcies(data []byte) (*ecies.PublicKey, error) {
+	if vfUFBool("ecies-key-malformed", data) {
+		return nil, vfErr("ecies key")
+	}
+	return &ecies.PublicKey{X: new(big.Int).SetUint64(vfUFU64("ecies-key-of", data))}, nil
+}
+
+//verif:stub github.com/ethereum/go-ethereum/crypto/ecies.Encrypt
+func vfStubEncrypt(rand io.Reader, pub *ecies.PublicKey, m, s1, s2 []byte) ([]byte, error) {
+	return vfUFBytesN("ecies-ciphertext", 2, pub.X.Uint64(), m), nil
+}
+
+//verif:stub (*github.com/shutter-network/rolling-shutter/rolling-shutter/keyper/database.Queries).DeletePolyEval sql=deletePolyEval
+func vfStubDeleteEval(q *database.Queries, ctx context.Context, arg database.DeletePolyEvalParams) error {
+	vfSend.deleted = append(vfSend.deleted, arg)
+	return nil
+}
+
+// Every queued evaluation is sent exactly once, in a message of its own eon, addressed to its own
+// receiver, encrypted under the key stored for that receiver, and removed from the queue in the
+// same transaction; evaluations of different eons never share a message.
+func H_C07_evaluations_sent_to_their_receivers() {
+	k := vfLen("rows", vfParam("rows", 3))
+	vfSend.rows, vfSend.deleted = nil, nil
+	var recv []common.Address
+	for i := 0; i < k; i++ {
+		a := vfAny[common.Address]("row.receiver")
+		recv = append(recv, a)
+		r := database.PolyEvalsWithEncryptionKeysRow{Eon: vfI64("row.eon"), ReceiverAddress: shdb.EncodeAddress(a), Eval: vfBytesN("row.eval", 2), EncryptionPublicKey: vfBytesN("row.key", 2)}
+		vfAssume(r.Eon >= 0)
+		if i > 0 {
+			vfAssume(vfSend.rows[i-1].Eon <= r.Eon) // ORDER BY ev.eon
+			vfAssume(!(vfSend.rows[i-1].Eon == r.Eon && recv[i-1] == a))
+		}
+		vfSend.rows = append(vfSend.rows, r)
+	}
+	vfPh.scheduled, vfPh.commitMsgs = nil, nil
+	st := NewShuttermintState(vfConf{addr: vfAny[common.Address]("own")})
+	err := st.BeforeSaveHook(context.Background(), nil)
+	if err != nil {
+		vfReach("aborted") // a malformed stored key aborts the block transaction: nothing is committed
+		return
+	}
+	vfAssert(len(vfSend.deleted) == k, "every-sent-evaluation-is-removed-from-the-queue")
+	sent := 0
+	for _, m := range vfPh.scheduled {
+		pe := m.GetPolyEval()
+		vfAssert(pe != nil && len(pe.Receivers) == len(pe.EncryptedEvals) && len(pe.Receivers) > 0, "wellformed-evaluation-message")
+		if pe == nil {
+			continue
+		}
+		for j := range pe.Receivers {
+			i := sent
+			sent++
+			if i >= k || j >= len(pe.EncryptedEvals) {
+				continue
+			}
+			r := vfSend.rows[i]
+			vfAssert(pe.Eon == uint64(r.Eon), "evaluation-travels-in-a-message-of-its-own-eon")
+			vfAssert(bytes.Equal(pe.Receivers[j], recv[i][:]), "evaluation-is-addressed-to-its-receiver")
+			vfAssert(bytes.Equal(pe.EncryptedEvals[j], vfUFBytesN("ecies-ciphertext", 2, vfUFU64("ecies-key-of", r.EncryptionPublicKey), r.Eval)), "evaluation-is-encrypted-under-the-receivers-key")
+			vfAssert(vfSend.deleted[i].Eon == r.Eon && vfSend.deleted[i].ReceiverAddress == r.ReceiverAddress, "removed-row-is-the-sent-one")
+		}
+	}
+	vfAssert(sent == k, "every-queued-evaluation-is-sent-exactly-once")
+	for a := 0; a+1 < len(vfPh.scheduled); a++ {
+		vfAssert(vfPh.scheduled[a].GetPolyEval().Eon < vfPh.scheduled[a+1].GetPolyEval().Eon, "one-message-per-eon")
+	}
+	vfReach("sent")
 }
